@@ -120,7 +120,7 @@ def _tag(size, spacing, offset):
 
 
 def _relevant(rec, *tags):
-  return rec.only is None or all(t in rec.only for t in tags)
+  return True      # a replay re-executes the whole unit; run.py filters the violations by key
 
 
 def _distinct_field(n, amp):
